@@ -173,11 +173,12 @@ def play(p):
     else:
         st = sh["stop"]
         shape = ("(inl {| pl_pat := %s; pl_msg := %s; pl_rx := %s; pl_recv := %s; pl_await := %s; pl_stop := %s; pl_disp_on := %s; "
-                 "pl_disp_arg := %s; pl_disp_mut := %s; pl_disp_await := %s |})") % (
+                 "pl_disp_arg := %s; pl_disp_mut := %s; pl_disp_await := %s; pl_drain := %s |})") % (
             s(sh["pat"]), s(sh["msg"]), s(sh["rx"]), s(sh["recv"]), b(sh["await"]),
             opt(st, lambda t: "{| stp_variant := %s; stp_tx := %s; stp_scrut := %s; stp_send_on := %s; stp_payload := %s; stp_closed := %s; stp_returns := %s |}" % (
                 s(t["variant"]), s(t["tx"]), s(t["scrut"]), s(t["send_on"]), lst(t["payload"], src), onclosed(t["closed"]), b(t["returns"]))),
-            s(sh["disp_on"]), s(sh["disp_arg"]), b(sh["disp_mut"]), b(sh["disp_await"]))
+            s(sh["disp_on"]), s(sh["disp_arg"]), b(sh["disp_mut"]), b(sh["disp_await"]),
+            opt(sh.get("drain"), lambda g: pair(s(g["rx"]), LIBS.get(g["lib"], "LibOther"))))
     return "(Some {| pl_params := %s; pl_async := %s; pl_shape := %s |})" % (
         lst(p["params"], lambda q: pair(s(q[0][4:] if q[0].startswith("mut ") else q[0]), s(q[1]))), b(p["async"]), shape)
 
